@@ -151,6 +151,22 @@ def _generate(ctx):
             if r.random() < 0.25 and ops[-1][0] == 'relate':
                 ops.append(['unrelate', x, y, rel, ph])
         yield {'shape': name, 'ops': ops, 'fam': 'random'}
+    # D-only family `newref`: instances created WITH referential values (MetaClass.new relates them one association after
+    # the other); when a later one is refused the instance and the links made so far remain — and must remain LIVE
+    rr = ctx.rng.fork('newref')
+    for i in range(ctx.pick(400, 6000)):
+        r = rr.fork(i)
+        ops = []
+        np_, nq = r.randint(1, 3), r.randint(1, 3)
+        for _ in range(r.randint(2, 10)):
+            w = r.random()
+            if w < 0.6:
+                ops.append(['newc', r.choice([None] + list(range(1, np_ + 1))), r.choice([None] + list(range(1, nq + 1)))])
+            elif w < 0.8:
+                ops.append(['delc', r.randint(0, 6)])
+            else:
+                ops.append(['unrel', r.randint(0, 6), r.choice(['R11', 'R12'])])
+        yield {'shape': 'newref', 'np': np_, 'nq': nq, 'ops': ops, 'fam': 'newref'}
 
 
 # ------------------------------------------------------------------ independent relational oracle
@@ -214,7 +230,83 @@ class Oracle(object):
         return 'ok'
 
 
+def _run_newref(case):
+    """classes P(Id), Q(Id), C(Id, P_Id, Q_Id); R11: C (1C, P_Id) -> P (1C, Id); R12: C (1C, Q_Id) -> Q (1C, Id).
+    `newc p q` = new('C', P_Id=p, Q_Id=q): the instance is related across R11 and then across R12; a refusal of the
+    second leaves instance and first link behind.  Whatever happened, after every op: navigation is symmetric, single-valued
+    ends hold at most one partner, and every instance a link mentions is in its class's pool."""
+    import xtuml as x
+    m = x.MetaModel(x.IntegerGenerator())
+    m.define_class('P', [('Id', 'integer')])
+    m.define_class('Q', [('Id', 'integer')])
+    m.define_class('C', [('Id', 'unique_id'), ('P_Id', 'integer'), ('Q_Id', 'integer')])
+    a1 = m.define_association('R11', 'C', ['P_Id'], False, True, '', 'P', ['Id'], False, True, '')
+    a2 = m.define_association('R12', 'C', ['Q_Id'], False, True, '', 'Q', ['Id'], False, True, '')
+    a1.formalize()
+    a2.formalize()
+    for i in range(case['np']):
+        m.new('P', Id=i + 1)
+    for i in range(case['nq']):
+        m.new('Q', Id=i + 1)
+    fails, stats = [], {'fam_newref': 1}
+    made = []          # every C instance new() ever appended or returned
+    refused = 0
+    for step, op in enumerate(case['ops']):
+        mcC = m.find_metaclass('C')
+        before = len(mcC.storage)
+        if op[0] == 'newc':
+            kw = {}
+            if op[1] is not None:
+                kw['P_Id'] = op[1]
+            if op[2] is not None:
+                kw['Q_Id'] = op[2]
+            try:
+                made.append(m.new('C', **kw))
+            except x.RelateException:
+                refused += 1
+                if len(mcC.storage) > before:
+                    made.append(mcC.storage[-1])
+        elif op[0] == 'delc':
+            live = list(mcC.storage)
+            if live:
+                x.delete(live[op[1] % len(live)])
+        else:
+            live = list(mcC.storage)
+            if live:
+                c = live[op[1] % len(live)]
+                other = x.navigate_one(c).P[11]() if op[2] == 'R11' else x.navigate_one(c).Q[12]()
+                if other is not None:
+                    x.unrelate(c, other, 11 if op[2] == 'R11' else 12)
+        pools = dict((k, list(m.find_metaclass(k).storage)) for k in ('P', 'Q', 'C'))
+        for ass, (sk, tk) in ((a1, ('C', 'P')), (a2, ('C', 'Q'))):
+            for link, (fk, tk2) in ((ass.source_link, (tk, sk)), (ass.target_link, (sk, tk))):
+                for inst, partners in link.items():
+                    if not any(inst is p for p in pools[fk]):
+                        fails.append({'sig': 'dead-reachable', 'what': 'after %s the links of %s mention an instance of %s that is not in '
+                                      'its pool (created by a refused new()? %s)' % (case['ops'][:step + 1], ass.rel_id, fk,
+                                                                                     any(inst is c for c in made))})
+                    for p in partners:
+                        if not any(p is q for q in pools[tk2]):
+                            fails.append({'sig': 'dead-reachable', 'what': 'after %s navigating %s reaches an instance of %s that is not '
+                                          'in its pool (created by a refused new()? %s)' % (case['ops'][:step + 1], ass.rel_id, tk2,
+                                                                                           any(p is c for c in made))})
+                    if len(partners) > 1:
+                        fails.append({'sig': 'unbounded', 'what': 'after %s a single-valued end of %s holds %d partners'
+                                      % (case['ops'][:step + 1], ass.rel_id, len(partners))})
+            s_pairs = set((id(k), id(p)) for k, ps in ass.source_link.items() for p in ps)
+            t_pairs = set((id(p), id(k)) for k, ps in ass.target_link.items() for p in ps)
+            if s_pairs != t_pairs:
+                fails.append({'sig': 'asymmetric', 'what': 'after %s association %s navigates asymmetrically' % (case['ops'][:step + 1], ass.rel_id)})
+        if fails:
+            break
+    stats['refused_new'] = refused
+    return {'obs': [], 'd_fail': fails[:3], 'nontrivial': refused > 0, 'key': 'newref/%r' % (case['ops'],), 'stats': stats,
+            'model_line': None}
+
+
 def run_impl(case):
+    if case.get('fam') == 'newref':
+        return _run_newref(case)
     schema = mc.SHAPES[case['shape']]
     model = mc.Model(schema)
     orc = Oracle(schema)
